@@ -188,3 +188,56 @@ func vh_C04_idle() {
 	vReach("idle")
 	vReachIdx("idle", k, len(vC04Decls))
 }
+
+// vh_C04_afterfailure: an evaluation that returns a value leaves the
+// interpreter at rest whatever failed before it: a form that fails at
+// compile time or at run time (every position of vC05BadForm) is followed by
+// successful evaluations - a plain expression, a loop with break, a function
+// call - after each of which the four stacks are at rest and the value is
+// the expected one; a break outside any loop is still rejected.
+func vh_C04_afterfailure() {
+	vFormatOpaque(true)
+	env := vEvalEnv(0)
+	e := env
+	s := func(n string) Sexp { return vS(e, n) }
+	nfail := 1
+	if vTier() == 1 {
+		nfail = 1 + vChoice("nfail", 2)
+	}
+	for k := 0; k < nfail; k++ {
+		_, err, panicked := vEval(env, vC05BadForm(env, true))
+		if panicked {
+			vDone() // C01
+		}
+		if err == nil {
+			vC04AtRest(env, "afterfailure-unexpected-success")
+		}
+	}
+	h := vSmallInt("h")
+	followups := []struct {
+		form Sexp
+		want vrVal
+	}{
+		{vL(s("+"), h, vI(2)), vrVal{k: vrInt, i: h.(*SexpInt).Val + 2}},
+		{vL(s("begin"), vL(s("def"), s("acc"), vI(0)),
+			vL(s("for"), vA(e, vL(s("def"), s("k"), vI(0)), vL(s("<"), s("k"), vI(5)), vL(s("set"), s("k"), vL(s("+"), s("k"), vI(1)))),
+				vL(s("cond"), vL(s("=="), s("k"), vI(3)), vL(s("break")), vL(s("set"), s("acc"), vL(s("+"), s("acc"), s("k"))))),
+			s("acc")), vrVal{k: vrInt, i: 3}},
+		{vL(s("begin"), vL(s("defn"), s("after"), vA(e, s("u")), vL(s("let"), vA(e, s("w"), s("u")), vL(s("*"), s("w"), vI(2)))), vL(s("after"), h)), vrVal{k: vrInt, i: h.(*SexpInt).Val * 2}},
+	}
+	for _, fu := range followups {
+		res, err, panicked := vEval(env, fu.form)
+		vAssert(!panicked && err == nil, "afterfailure-followup-succeeds")
+		if panicked || err != nil {
+			return
+		}
+		vAssert(vrMatch(res, fu.want), "afterfailure-followup-value")
+		vC04AtRest(env, "afterfailure")
+	}
+	// no loop record may be left behind: a break outside any loop is an error
+	_, err, panicked := vEval(env, vL(s("defn"), s("stray"), vA(e), vL(s("break"))))
+	vAssert(!panicked && err != nil, "afterfailure-stray-break-rejected")
+	res, err, panicked := vEvalString(env, "")
+	vAssert(!panicked && err == nil && res == SexpNull, "afterfailure-empty-input-is-nil")
+	vReach("afterfailure")
+}
